@@ -81,9 +81,13 @@ Definition mon (m : mst) (o : op) (out : list obs) : mst * verdict :=
       (* teardown (a reconnect tears the old connection down first) removes the peer's bindings;
          exactness of teardown and its events is C10 *)
       (advance m o (drop_peer p (reg m)), [])
-  | DiscoveryNotify p _ _ _ | DiscoveryReply p _ =>
+  | DiscoveryNotify p _ _ _ =>
       (* entities of p announced as removed (entity-removed event) take their bindings with them *)
       (advance m o (drop_gone p (gone_seen out) (reg m)), [])
+  | DiscoveryReply p dm =>
+      (* so do the entities a discovery reply no longer lists; the reply also completes the
+         address of the node-management feature it came in through *)
+      (advance m o (after_reply (w m) p dm out (reg m)), [])
   | _ => (advance m o (reg m), quiet out)
   end.
 
